@@ -164,6 +164,7 @@ class BddMachine(Machine):
             for i in idx:
                 acts.append(('collect_roots', i))
             acts.append(('collect_roots_zero',))
+            acts.append(('collect_roots_empty',))
         if self.with_swap:
             for l in range(len(self.names) - 1):
                 acts.append(('swap', l))
@@ -274,7 +275,17 @@ class BddMachine(Machine):
             if check:
                 self._after_full_collect(st)
         elif kind == 'collect_roots':
+            before = set(m._succ)
             m.collect_garbage(roots=[h[a[1]][0]])
+            if check and set(m._succ) != before:
+                raise Violation('a collection rooted at a referenced node freed nodes',
+                                freed=sorted(before - set(m._succ)))
+        elif kind == 'collect_roots_empty':
+            before = set(m._succ)
+            m.collect_garbage(roots=[])
+            if check and set(m._succ) != before:
+                raise Violation('a collection with an empty set of roots freed nodes',
+                                freed=sorted(before - set(m._succ)))
         elif kind == 'collect_roots_zero':
             z = self._zero_nodes(m)
             if z:
